@@ -18,7 +18,7 @@ F_PC = 'include/yaclib/algo/detail/promise_core.hpp'
 F_DROP = 'src/algo/drop_core.cpp'
 F_MAKE = 'include/yaclib/lazy/make.hpp'
 
-TRUSTED = ['IntrusivePtr (Release / Get / destructor = DecRef if non-null): modelled by HANDLE_* helpers',
+TRUSTED = ['IntrusivePtr (Release / Get / destructor = DecRef if non-null) is modelled by HANDLE_* helpers; the class itself is proved in unit intrusive_ptr',
            'Wait(future) returns only when the future is ready (C11)']
 DROPPED = ['handles are structs with one pointer `_core`; `std::exchange(_core, nullptr)` into a local IntrusivePtr gets its destructor (DecRef) inserted before the return by recipe rule',
            'the reference-count value a SharedCore sees (GetRef) is a stub result; exclusivity of ref == 2 / ref == 1 is the counting lemma of C06 (promise_refs sheet)']
